@@ -65,8 +65,41 @@ def rand_base(rng):
             c["examples"] = {"e": {"value": {"a": 1}}}
         if rng.random() < 0.2:
             c["requestBodies"] = {"rb": {"content": {"application/json": {"schema": {"type": "string"}}}}}
+        if rng.random() < 0.3:
+            c["links"] = {"GetById": {"operationId": "getThing", "parameters": {"id": "$response.body#/id"}, "description": "link"}}
+        if rng.random() < 0.2:
+            c["callbacks"] = {"onEvent": {"{$request.body#/url}": {"post": {"responses": {"200": {"description": "ok"}}}}}}
+        if rng.random() < 0.2:
+            c["x-comp-ext"] = {"k": "v"}
         b["components"] = c
     return b
+
+
+FULL_BASE = {
+    "openapi": "3.0.3",
+    "info": {"title": "Full", "version": "9.9", "description": "every field", "termsOfService": "https://example.com/tos",
+             "contact": {"name": "N", "url": "https://example.com", "email": "a@example.com"},
+             "license": {"name": "MIT", "url": "https://example.com/mit"}, "x-info-ext": 1},
+    "servers": [{"url": "https://{env}.example.com", "description": "s", "variables": {"env": {"default": "prod", "enum": ["prod", "dev"]}}}],
+    "security": [{"key": []}, {"oauth": ["read"]}],
+    "tags": [{"name": "t0", "description": "tag", "externalDocs": {"url": "https://docs.example.com/t0"}}],
+    "externalDocs": {"url": "https://docs.example.com", "description": "docs"},
+    "x-top-ext": {"a": [1, 2]},
+    "paths": {"/legacy": {"get": {"responses": {"200": {"description": "ok"}}}}},
+    "components": {
+        "schemas": {"Legacy": {"type": "string"}},
+        "responses": {"NotFound": {"description": "nf"}},
+        "parameters": {"page": {"name": "page", "in": "query", "schema": {"type": "integer"}}},
+        "examples": {"e": {"value": {"a": 1}}},
+        "requestBodies": {"rb": {"content": {"application/json": {"schema": {"type": "string"}}}}},
+        "headers": {"X-Rate": {"schema": {"type": "integer"}}},
+        "securitySchemes": {"key": {"type": "apiKey", "name": "X-Key", "in": "header"},
+                            "oauth": {"type": "oauth2", "flows": {"implicit": {"authorizationUrl": "https://example.com/auth", "scopes": {"read": "r"}}}}},
+        "links": {"GetById": {"operationId": "getThing", "parameters": {"id": "$response.body#/id"}}},
+        "callbacks": {"onEvent": {"{$request.body#/url}": {"post": {"responses": {"200": {"description": "ok"}}}}}},
+        "x-comp-ext": {"k": "v"},
+    },
+}
 
 
 def check(ctx):
@@ -93,6 +126,9 @@ def check(ctx):
             ps[i] = {"mods": {"file:///w/main.oal": "# tags: [t1, extra]\nlet o = get -> <{}>;\nres /tagged%d on o;\n" % i},
                      "main": "file:///w/main.oal", "features": ["op-tags"], "ast": None}
         bases = [rand_base(ctx.rng) for _ in ps]
+        for i in (0, 1, 5, 10, 11):        # a base with every section of the format, against each kind of program
+            if i < len(bases):
+                bases[i] = json.loads(json.dumps(FULL_BASE))
     progs.feature_stats(ctx, ps)
     plain = progs.compile_many(ps)
     with_base = progs.compile_many([dict(p, base=json.dumps(b)) for p, b in zip(ps, bases)])
